@@ -160,7 +160,7 @@ func (l *entryLog) AddEntries(entries []raftpb.Entry) error {
 			}
 			logger.GetLogger().Info("clearFirstFile slots", zap.Int("startSlot", lastIdx), zap.Int("endSlot", maxNumEntries),
 				zap.Int("fileLoc", firstIdx), zap.Int("fileNum", len(l.files)))
-			_ = l.current.entry.WriteSlice(lastIdx, maxNumEntries, int64(entrySize*lastIdx), make([]byte, logFileOffset-entrySize*lastIdx), false, true)
+			_ = l.current.entry.WriteSlice(lastIdx, maxNumEntries, int64(entrySize*lastIdx), make([]byte, logFileOffset-entrySize*lastIdx-unit32Size), false, true)
 			l.current.entry.setCurrent()
 			l.files = l.files[:firstIdx]
 			l.filesSync.Unlock()
